@@ -166,3 +166,68 @@ def follow_copies(body, local, limit=8):
                 continue
         break
     return l
+
+
+def closure_use_sites(prog, body, closure_path):
+    """blocks of `body` whose call terminator receives the closure `closure_path` (created in body) as an argument"""
+    locs = set()
+    for i, j, s in body.assigns():
+        rv = s["rv"]
+        if rv["k"] == "agg" and rv.get("ak", "").split(":", 1)[-1] == closure_path and not s["lhs"]["p"]:
+            locs.add(s["lhs"]["l"])
+    changed = True
+    while changed:
+        changed = False
+        for i, j, s in body.assigns():
+            rv = s["rv"]
+            if rv["k"] in ("use", "ref") and not s["lhs"]["p"]:
+                p = op_place(rv.get("op")) if rv["k"] == "use" else rv.get("place")
+                if p is not None and not [e for e in p["p"] if e != "*"] and p["l"] in locs and s["lhs"]["l"] not in locs:
+                    locs.add(s["lhs"]["l"])
+                    changed = True
+    out = []
+    for bi, t in body.calls():
+        for a in t["args"]:
+            p = op_place(a)
+            if p is not None and not p["p"] and p["l"] in locs:
+                out.append((bi, t))
+    return out
+
+
+def call_sites_incl_closures(prog, body, callee):
+    """(block, terminator) pairs in `body` at which `callee` is called: directly, or inside a closure created in `body` and
+    handed to a call in that block (`iter.for_each(|x| callee(x))`)"""
+    out = list(calls(body, callee))
+    for cb in prog.children(body.root or body.path):
+        if cb.path == body.path:
+            continue
+        if calls(cb, callee):
+            out += closure_use_sites(prog, body, cb.path)
+    return out
+
+
+def forwarding_sites(prog, body, target, arg_idx):
+    """call sites in `body` that pass a value on to `target`'s argument `arg_idx`: direct calls, and calls to a workspace helper
+    (plain fn, one level) that hands one of its own parameters, unchanged, to `target` on the only call it makes to it.
+    Returns (block, pseudo-terminator) pairs whose args[arg_idx] is the caller-side operand."""
+    out = []
+    for bi, t in calls(body, target):
+        out.append((bi, t))
+    for bi, t in body.calls():
+        c = body.callee(t) or body.callee_decl(t) or ""
+        hb = prog.bodies.get(c)
+        if hb is None or c == target or getattr(hb, "kind", "") == "Closure":
+            continue
+        inner = calls(hb, target)
+        if len(inner) != 1:
+            continue
+        ib, it = inner[0]
+        p = op_place(it["args"][arg_idx]) if len(it["args"]) > arg_idx else None
+        if p is None or p["p"]:
+            continue
+        src = follow_copies(hb, p["l"])
+        if 1 <= src <= hb.argc and len(t["args"]) >= src:
+            args = [None] * (arg_idx + 1)
+            args[arg_idx] = t["args"][src - 1]
+            out.append((bi, {"k": "call", "args": args, "line": t["line"], "f": t["f"], "dest": t["dest"], "target": t.get("target"), "via": c}))
+    return out
